@@ -2,6 +2,7 @@ import RlibModel.Model.Sieve
 import Mathlib.Data.Nat.Prime.Basic
 import Mathlib.Tactic.Linarith
 import Mathlib.Data.Nat.Factorization.Basic
+import Mathlib.Data.List.Sort
 /-! Helper lemmas for C13 (linear sieve invariant; ported from `spikes/SieveProof.lean`). -/
 namespace Rlib.Sieve
 
@@ -594,6 +595,139 @@ theorem specPrimes_eq (N : Nat) : specPrimes N = (List.range (N + 1)).filter Nat
   apply List.filter_congr
   intro x _
   rw [specIsPrime_eq]
+
+
+/-! ### the trial-division factorisation spec, and uniqueness of factorisations in the sense of `IsFactorization` -/
+
+/-- prepend the least prime with its full exponent to a factorisation of the cofactor -/
+theorem IsFactorization.cons_minFac {n : Nat} (hn2 : 2 ≤ n) {l' : List (Nat × Nat)}
+    (hF : IsFactorization (n / n.minFac ^ n.factorization n.minFac) l') :
+    IsFactorization n ((n.minFac, n.factorization n.minFac) :: l') := by
+  have hn0 : n ≠ 0 := by omega
+  have hp : n.minFac.Prime := Nat.minFac_prime (by omega)
+  have hkpos : 0 < n.factorization n.minFac := hp.factorization_pos_of_dvd hn0 (Nat.minFac_dvd n)
+  have hbig : ∀ pe ∈ l', n.minFac < pe.1 ∧ pe.2 = n.factorization pe.1 := by
+    intro pe hpe
+    obtain ⟨hq, he, hpos⟩ := hF.exact pe hpe
+    have hqd' : pe.1 ∣ n / n.minFac ^ n.factorization n.minFac := by
+      by_contra hnd
+      rw [Nat.factorization_eq_zero_of_not_dvd hnd] at he; omega
+    have hqd : pe.1 ∣ n := Dvd.dvd.trans hqd' (Nat.ordCompl_dvd _ _)
+    have hne : pe.1 ≠ n.minFac := by
+      intro h; rw [h] at hqd'; exact Nat.not_dvd_ordCompl hp hn0 hqd'
+    have hge : n.minFac ≤ pe.1 := Nat.minFac_le_of_dvd hq.two_le hqd
+    refine ⟨by omega, ?_⟩
+    rw [he, Nat.factorization_ordCompl, Finsupp.erase_ne hne]
+  constructor
+  · simp only [List.map_cons, List.pairwise_cons]
+    refine ⟨?_, hF.increasing⟩
+    intro q hq
+    obtain ⟨pe, hpe, rfl⟩ := List.mem_map.mp hq
+    exact (hbig pe hpe).1
+  · intro pe hpe
+    rcases List.mem_cons.mp hpe with rfl | hpe
+    · exact ⟨hp, rfl, hkpos⟩
+    · obtain ⟨hq, _, hpos⟩ := hF.exact pe hpe
+      exact ⟨hq, (hbig pe hpe).2, hpos⟩
+  · simp only [List.map_cons, List.prod_cons]
+    rw [hF.prod]
+    exact Nat.ordProj_mul_ordCompl_eq_self n _
+
+theorem specStrip_eq {p : Nat} (hp : p.Prime) :
+    ∀ (fuel n e : Nat), 1 ≤ n → n < 2 ^ fuel →
+      specStrip fuel n p e = (e + n.factorization p, n / p ^ n.factorization p) := by
+  intro fuel
+  induction fuel with
+  | zero => intro n e h1 h2; simp at h2; omega
+  | succ f ih =>
+    intro n e h1 hlt
+    unfold specStrip
+    by_cases hd : n % p = 0
+    · have hdvd : p ∣ n := Nat.dvd_of_mod_eq_zero hd
+      rw [if_pos ⟨hp.two_le, h1, hd⟩]
+      have hpos : 1 ≤ n / p := Nat.div_pos (Nat.le_of_dvd (by omega) hdvd) hp.pos
+      have hlt' : n / p < 2 ^ f := by
+        have : n / p ≤ n / 2 := Nat.div_le_div_left hp.two_le (by omega)
+        have : n < 2 * 2 ^ f := by rw [pow_succ] at hlt; omega
+        omega
+      rw [ih (n / p) (e + 1) hpos hlt']
+      have hfac : (n / p).factorization p + 1 = n.factorization p := by
+        rw [Nat.factorization_div hdvd]
+        simp only [Finsupp.coe_tsub, Pi.sub_apply, hp.factorization_self]
+        have := hp.factorization_pos_of_dvd (by omega : n ≠ 0) hdvd
+        omega
+      rw [← hfac]
+      have e1 : e + 1 + (n / p).factorization p = e + ((n / p).factorization p + 1) := by omega
+      have e2 : n / p / p ^ (n / p).factorization p = n / p ^ ((n / p).factorization p + 1) := by
+        rw [Nat.div_div_eq_div_mul, pow_succ, Nat.mul_comm]
+      rw [e1, e2]
+    · rw [if_neg (fun h => hd h.2.2)]
+      have hnd : ¬ p ∣ n := fun h => hd (Nat.mod_eq_zero_of_dvd h)
+      rw [Nat.factorization_eq_zero_of_not_dvd hnd]
+      simp
+
+theorem specFactorize_ok : ∀ (fuel n : Nat), 1 ≤ n → n < 2 ^ fuel →
+    IsFactorization n (specFactorize fuel n) := by
+  intro fuel
+  induction fuel with
+  | zero => intro n h1 h2; simp at h2; omega
+  | succ f ih =>
+    intro n h1 hlt
+    unfold specFactorize
+    by_cases hn1 : n ≤ 1
+    · have : n = 1 := by omega
+      subst this
+      rw [if_pos hn1]
+      exact ⟨by simp, by simp, by simp⟩
+    · have hn2 : 2 ≤ n := by omega
+      have hn0 : n ≠ 0 := by omega
+      have hp : n.minFac.Prime := Nat.minFac_prime (by omega)
+      rw [if_neg hn1]
+      simp only [specMinFac_eq n hn2, specStrip_eq hp (f + 1) n 0 h1 hlt, Nat.zero_add]
+      have hkpos : 0 < n.factorization n.minFac := hp.factorization_pos_of_dvd hn0 (Nat.minFac_dvd n)
+      have hc1 : 1 ≤ n / n.minFac ^ n.factorization n.minFac := Nat.ordCompl_pos _ hn0
+      have hcle : n / n.minFac ^ n.factorization n.minFac ≤ n / n.minFac := by
+        apply Nat.div_le_div_left _ hp.pos
+        calc n.minFac = n.minFac ^ 1 := (pow_one _).symm
+          _ ≤ n.minFac ^ n.factorization n.minFac := Nat.pow_le_pow_right hp.pos hkpos
+      have hclt : n / n.minFac ^ n.factorization n.minFac < 2 ^ f := by
+        have : n / n.minFac ≤ n / 2 := Nat.div_le_div_left hp.two_le (by omega)
+        have : n < 2 * 2 ^ f := by rw [pow_succ] at hlt; omega
+        omega
+      exact (ih _ hc1 hclt).cons_minFac hn2
+
+/-- a factorisation in the sense of `IsFactorization` is unique -/
+theorem IsFactorization.unique {n : Nat} {l₁ l₂ : List (Nat × Nat)}
+    (h₁ : IsFactorization n l₁) (h₂ : IsFactorization n l₂) : l₁ = l₂ := by
+  have hmem : ∀ {l : List (Nat × Nat)}, IsFactorization n l → ∀ p, p ∈ l.map Prod.fst ↔ p.Prime ∧ p ∣ n := by
+    intro l h p
+    constructor
+    · intro hp
+      obtain ⟨pe, hpe, rfl⟩ := List.mem_map.mp hp
+      obtain ⟨hq, he, hpos⟩ := h.exact pe hpe
+      refine ⟨hq, ?_⟩
+      by_contra hnd
+      rw [Nat.factorization_eq_zero_of_not_dvd hnd] at he; omega
+    · rintro ⟨hp, hd⟩
+      obtain ⟨e, he⟩ := h.complete hp hd
+      exact List.mem_map.mpr ⟨(p, e), he, rfl⟩
+  have hfst : l₁.map Prod.fst = l₂.map Prod.fst := by
+    apply List.Perm.eq_of_pairwise (le := (· < ·)) (fun a b _ _ hab hba => absurd hab (Nat.lt_asymm hba))
+      h₁.increasing h₂.increasing
+    rw [List.perm_ext_iff_of_nodup (h₁.increasing.imp (fun h => Nat.ne_of_lt h))
+      (h₂.increasing.imp (fun h => Nat.ne_of_lt h))]
+    intro p; rw [hmem h₁, hmem h₂]
+  have hrebuild : ∀ {l : List (Nat × Nat)}, IsFactorization n l →
+      l = (l.map Prod.fst).map (fun p => (p, n.factorization p)) := by
+    intro l h
+    rw [List.map_map]
+    conv_lhs => rw [← List.map_id l]
+    apply List.map_congr_left
+    intro pe hpe
+    have := (h.exact pe hpe).2.1
+    simp only [id, Function.comp]
+    rw [← this]
+  rw [hrebuild h₁, hrebuild h₂, hfst]
 
 
 end Rlib.Sieve
